@@ -27,7 +27,7 @@ class Other(Exception):
     pass
 
 
-RETRY_ON = {'none': None, 'boom': (Boom,), 'boom+timeout': (Boom, TimeoutError)}
+RETRY_ON = {'none': None, 'boom': (Boom,), 'boom+timeout': (Boom, TimeoutError), 'empty': ()}
 
 
 def t_retry(ctx):
@@ -171,6 +171,7 @@ def jobs(tier):
                        witnesses=('success after failures', 'exhausted', 'unlisted propagated early', 'cut-off', 'retried')))
         out.append(Job('C19', 'r.retry', t_retry, dict(rmax=1, bf='1/2', retry_on='none'), witnesses=('retried',)))
         out.append(Job('C19', 'r.retry', t_retry, dict(rmax=2, bf='1', retry_on='boom'), witnesses=('retried',)))
+        out.append(Job('C19', 'r.retry', t_retry, dict(rmax=1, bf='1', retry_on='empty')))
         out.append(Job('C19', 'r.retry', t_retry, dict(rmax=1, bf='2', retry_on='boom+timeout', cancel=True),
                        witnesses=('cancelled in flight', 'finished before cancel')))
     else:
